@@ -224,7 +224,89 @@ fn swapcap(name: &str, a: &[String]) -> Option<String> {
     })
 }
 
+
+/// `position.history <seed> <nops> <index price> <token prices>`: a pseudo-random history of increases and decreases (with
+/// clock moves) of eight positions - two per (side, collateral token) - on the model crate's own `TestMarket<u64, 9>`, each step
+/// through the REAL IncreasePosition / DecreasePosition actions. A failed action is rolled back (as a failed transaction is).
+/// Output: one `;`-separated record per successful step: `<step> <kind> <position> <a> <b> <removed> | 8 x usd,tokens,collateral |
+/// oi(LL,LS,SL,SS) | oi in tokens(..) | collateral sums(..)`; the oracle (sums match) lives on the Python side.
+fn position(name: &str, a: &[String]) -> Option<String> {
+    use gmsol_model::action::decrease_position::DecreasePositionFlags;
+    use gmsol_model::price::Prices;
+    use gmsol_model::test::{TestMarket, TestPosition};
+    use gmsol_model::{Balance, BaseMarket, LiquidityMarketMutExt, MarketAction, PositionMutExt, PositionState};
+    if name != "history" { return None; }
+    const UNIT: u128 = 100_000_000_000_000_000_000;
+    let mut seed: u64 = a[0].parse().ok()?;
+    let nops: usize = a[1].parse().ok()?;
+    let index: u128 = a[2].parse().ok()?;
+    let tokp: u128 = a[3].parse().ok()?;
+    let mut rnd = move || { seed = seed.wrapping_mul(6364136223846793005).wrapping_add(1442695040888963407); (seed >> 33) as u128 };
+    let mut market = TestMarket::<u128, 20>::default();
+    let p0 = Prices::new_for_test(index, index, tokp);
+    if let Err(e) = market.deposit(10_000_000 * UNIT / index.max(1) + 1, 0, p0).and_then(|a| a.execute()) { return Some(format!("SETUP-ERR {e}")); }
+    if let Err(e) = market.deposit(0, 10_000_000 * UNIT / tokp.max(1) + 1, p0).and_then(|a| a.execute()) { return Some(format!("SETUP-ERR {e}")); }
+    let mut pos: Vec<TestPosition<u128, 20>> = vec![
+        TestPosition::long(true), TestPosition::long(true), TestPosition::long(false), TestPosition::long(false),
+        TestPosition::short(true), TestPosition::short(true), TestPosition::short(false), TestPosition::short(false),
+    ];
+    let mut out = String::new();
+    for step in 0..nops {
+        let k = (rnd() % 8) as usize;
+        let kind = rnd() % 10;
+        // prices move a little around the base
+        let ip = index + index * (rnd() % 7) / 50 - index * (rnd() % 7) / 50;
+        let ip = ip.max(1);
+        let prices = Prices::new_for_test(ip, if k % 4 < 2 || true { ip } else { ip }, tokp);
+        let saved_market = market.clone();
+        let saved_pos = pos[k];
+        let is_collateral_long = k % 4 < 2;
+        let col_price = if is_collateral_long { ip } else { tokp };
+        let (desc, ok, removed);
+        if kind < 4 {
+            // increase: size in {0, $2 .. $2000}, collateral worth 1/2 .. 1/10 of it (or a top-up only)
+            let size = if rnd() % 6 == 0 { 0 } else { (2 + rnd() % 2000) * UNIT / (1 + rnd() % 3) };
+            let col = (size.max(2 * UNIT) / (2 + rnd() % 9)) / col_price.max(1) + rnd() % 3;
+            desc = format!("increase {k} {col} {size}");
+            let r = pos[k].ops(&mut market).increase(prices, col, size, None).and_then(|a| a.execute());
+            ok = r.is_ok(); removed = false;
+        } else if kind < 9 {
+            let cur = { let o = pos[k].ops(&mut market); *o.size_in_usd() };
+            // decrease: everything, almost everything, a sliver, a random part, or nothing (collateral withdrawal only)
+            let size = match rnd() % 6 { 0 => cur, 1 => cur.saturating_sub(UNIT + rnd() % UNIT), 2 => rnd() % 3 * UNIT + rnd(), 3 => 0, _ => if cur == 0 { 0 } else { rnd() % cur } };
+            let wd = if rnd() % 3 == 0 { rnd() % 1000 } else { 0 };
+            desc = format!("decrease {k} {size} {wd}");
+            let mut flags = DecreasePositionFlags::default();
+            flags.is_cap_size_delta_usd_allowed = rnd() % 2 == 0;
+            let r = pos[k].ops(&mut market).decrease(prices, size, None, wd, flags).and_then(|a| a.execute());
+            ok = r.is_ok(); removed = r.map(|rep| rep.should_remove()).unwrap_or(false);
+        } else {
+            let secs = (1 + rnd() % 3600) as u64;
+            market.move_clock_forward(std::time::Duration::from_secs(secs));
+            desc = format!("clock {secs} 0 0"); ok = true; removed = false;
+        }
+        if !ok { market = saved_market; pos[k] = saved_pos; continue; }
+        out.push_str(&format!("{step} {desc} {removed} |"));
+        for j in 0..8 {
+            let o = pos[j].ops(&mut market);
+            out.push_str(&format!(" {},{},{}", o.size_in_usd(), o.size_in_tokens(), o.collateral_amount()));
+        }
+        for which in 0..3 {
+            out.push_str(" |");
+            for is_long in [true, false] {
+                let pool = match which { 0 => market.open_interest_pool(is_long), 1 => market.open_interest_in_tokens_pool(is_long), _ => market.collateral_sum_pool(is_long) }.ok()?;
+                out.push_str(&format!(" {} {}", pool.long_amount().ok()?, pool.short_amount().ok()?));
+            }
+        }
+        out.push(';');
+    }
+    Some(out)
+}
+
 pub fn dispatch(name: &str, a: &[String]) -> Option<String> {
+    if let Some(n) = name.strip_prefix("position.") {
+        return position(n, a);
+    }
     if let Some(n) = name.strip_prefix("swapcap.") {
         return swapcap(n, a);
     }
